@@ -208,6 +208,20 @@ pub fn run_free(input: &str) {
     std::process::exit(0);
 }
 
+/// selector of a subscriber shared by two stores: the last action id modulo `modulus`
+struct ModSelector {
+    modulus: u32,
+}
+
+impl rs_store::Selector<State, u32> for ModSelector {
+    fn select(&self, state: &State) -> u32 {
+        match state.0.last() {
+            None => 0,
+            Some((_, a)) => (*a % 50000) % self.modulus,
+        }
+    }
+}
+
 /// a direct subscriber of store A that dispatches to store B from inside on_notify
 struct Forwarder {
     sid: u32,
@@ -270,6 +284,27 @@ pub fn run_pair(sa: &Scenario, sb: &Scenario) -> bool {
         }
     }
     for (kk, rest) in &scs[0].extra {
+        // sharedsel <sid> <modulus> [<delay us>]: ONE SelectorSubscriber object registered with both
+        // stores (selected value = last action id mod modulus); its deliveries are logged, in the
+        // order in which they happen, in store A's log as `SCHANGE <sid> <value> <action>`
+        if kk == "sharedsel" && rest.len() >= 2 {
+            let sid: u32 = rest[0].parse().unwrap_or(95);
+            let modulus: u32 = rest[1].parse().unwrap_or(2).max(1);
+            let us: u64 = rest.get(2).and_then(|x| x.parse().ok()).unwrap_or(0);
+            let c2 = ctxs[0].clone();
+            let shared = Arc::new(rs_store::SelectorSubscriber::new(
+                ModSelector { modulus },
+                move |v: u32, a: Aid| {
+                    if us > 0 {
+                        std::thread::sleep(Duration::from_micros(us));
+                    }
+                    // SCHANGE, not CHANGE: the call may come from either store's reducer context
+                    c2.log(format!("SCHANGE {} {} {}", sid, v, a));
+                },
+            ));
+            let _ = stores[0].add_subscriber(shared.clone());
+            let _ = stores[1].add_subscriber(shared);
+        }
         if kk == "forward" && !rest.is_empty() {
             let sid: u32 = rest[0].parse().unwrap_or(90);
             let _ = stores[0].add_subscriber(Arc::new(Forwarder {
